@@ -469,6 +469,14 @@ def hostile_event(kind, loop, rnd, prepared=False):
         return [{'type': 'due', 'name': kind, 'which': 'delete_ike_sa_at' if kind == 'own_delete_then_expire' else 'rekey_ike_sa_at'},
                 {'type': 'xfrm', 'name': kind, 'data': fakekernel.enc_expire(wd.addr_of('A'), spi, 50, rnd.random() < 0.5)},
                 {'type': 'xfrm', 'name': kind, 'data': fakekernel.enc_expire(wd.addr_of('A'), spi, 50, True)}]
+    if kind == 'replay_last':
+        # an authentic datagram of the legitimate peer once more, exactly as it was (a duplicate made by the network): a request is answered from the
+        # cache, a response to something already settled is dropped - without touching the exchange that is outstanding NOW
+        return udp(loop.legit.last) if loop.legit.last else udp(b'')
+    if kind == 'own_request_then_stale_answer':
+        # the daemon starts an exchange of its own (rekey of a CHILD_SA it holds), the answer arrives and makes it send the follow-up DELETE; while THAT is
+        # outstanding the network delivers the first answer a second time, and then the timers run
+        return [hostile_event('expire_own_child', loop, rnd), {'type': 'legit'}, {'type': 'lazy', 'kind': 'replay_last'}, {'type': 'tick', 'name': kind, 'dt': 1.0}]
     if kind == 'expire_own_child':
         # a soft EXPIRE for a CHILD_SA the daemon really holds, at whatever moment: it rekeys it (or queues the event) - the session goes on with the new one
         kid = next((c for x in w.sas('A') for c in x.child_sas), None)
@@ -495,7 +503,7 @@ def hostile_event(kind, loop, rnd, prepared=False):
 KINDS = ('short', 'garbage', 'unconfigured_src', 'init_existing_spi', 'unknown_exchange', 'unknown_spi', 'binary_vendor', 'auth_malformed', 'bad_checksum',
          'loop_payload', 'delete_many', 'acquire_unconfigured', 'acquire_unknown_index', 'expire_unknown_spi', 'netlink_truncated', 'netlink_unknown_type',
          'control', 'send_gaierror', 'send_oserror', 'tick', 'wrong_spi_sealed', 'wrong_spi_clear', 'acquire_silent_peer', 'half_open_wrong_spi', 'netlink_fail_delsa', 'netlink_fail_newsa',
-         'acquire_legit_peer', 'wire_mutant', 'own_delete_then_expire', 'own_rekey_then_expire', 'expire_own_child', 'half_open_unknown_exchange_x2', 'unknown_exchange_sealed_x2', 'unknown_exchange_x2', 'garbage_x2', 'wrong_spi_sealed_x2', 'auth_malformed_x2')
+         'acquire_legit_peer', 'wire_mutant', 'own_delete_then_expire', 'own_rekey_then_expire', 'expire_own_child', 'replay_last', 'own_request_then_stale_answer', 'half_open_unknown_exchange_x2', 'unknown_exchange_sealed_x2', 'unknown_exchange_x2', 'garbage_x2', 'wrong_spi_sealed_x2', 'auth_malformed_x2')
 
 
 class Lazy(dict):
